@@ -222,6 +222,14 @@ def search(ctx):
     # the recorded prefilter finding (F-C09-a): replayed on every run
     cases.append({"pair": ("pixee:python/add-requests-timeouts", "pixee:python/url-sandbox"), "seed": 1,
                   "extra_files": {"known.py": 'import requests\nrequests.get("https://example.com").json()\n'}})
+    # two manifests that can take a package, one of which already declares what the first codemod needs: where the second codemod's
+    # package goes does not depend on what the run did before
+    PYP = '[project]\nname = "x"\nversion = "0.1"\ndependencies = [\n    "{}",\n]\n'
+    for first, second, declared in [("pixee:python/harden-pickle-load", "pixee:python/use-defusedxml", "fickling"), ("pixee:python/use-defusedxml", "pixee:python/harden-pickle-load", "defusedxml")]:
+        cases.append({"pair": (first, second), "seed": rng.randint(0, 10**9), "tag": "declared-in-first-manifest", "disjoint": True,
+                      "extra_files": {"pyproject.toml": PYP.format(declared), "requirements.txt": "requests\n"}})
+        cases.append({"pair": (first, second), "seed": rng.randint(0, 10**9), "tag": "declared-in-second-manifest", "disjoint": True,
+                      "extra_files": {"pyproject.toml": PYP.format("requests"), "requirements.txt": f"requests\n{declared}\n"}})
     # a file no codemod can parse: each codemod of the batch reports it failed, as each separate invocation does
     for pair in [("pixee:python/use-generator", "pixee:python/fix-assert-tuple"), ("pixee:python/numpy-nan-equality", "pixee:python/use-walrus-if")]:
         cases.append({"pair": pair, "seed": rng.randint(0, 10**9), "extra_files": {"legacy.py": 'print "python 2"\n'}, "tag": "unparsable-file"})
